@@ -184,11 +184,23 @@ class SSHChannel(Generic[AnyStr], SSHPacketHandler):
         if encoding:
             self._encoder: Optional[codecs.IncrementalEncoder] = \
                 codecs.getincrementalencoder(encoding)(errors)
-            self._decoder: Optional[codecs.IncrementalDecoder] = \
-                codecs.getincrementaldecoder(encoding)(errors)
         else:
             self._encoder = None
-            self._decoder = None
+
+        # Each type of data is a stream of its own, so a character split
+        # across packets mustn't be mixed up with data of another type
+        self._decoders: Dict[DataType, codecs.IncrementalDecoder] = {}
+
+    def _get_decoder(self, datatype: DataType) -> codecs.IncrementalDecoder:
+        """Return the incremental decoder for a type of incoming data"""
+
+        try:
+            return self._decoders[datatype]
+        except KeyError:
+            assert self._encoding is not None
+            decoder = codecs.getincrementaldecoder(self._encoding)(self._errors)
+            self._decoders[datatype] = decoder
+            return decoder
 
     def get_recv_window(self) -> int:
         """Return the configured receive window for this channel"""
@@ -348,8 +360,8 @@ class SSHChannel(Generic[AnyStr], SSHPacketHandler):
             if self._encoding and not exc and \
                     self._recv_state in ('eof_pending', 'close_pending'):
                 try:
-                    assert self._decoder is not None
-                    self._decoder.decode(b'', True)
+                    for decoder in self._decoders.values():
+                        decoder.decode(b'', True)
                 except UnicodeDecodeError as unicode_exc:
                     raise ProtocolError(str(unicode_exc)) from None
 
@@ -382,8 +394,8 @@ class SSHChannel(Generic[AnyStr], SSHPacketHandler):
 
         if self._encoding:
             try:
-                assert self._decoder is not None
-                decoded_data = cast(AnyStr, self._decoder.decode(data))
+                decoder = self._get_decoder(datatype)
+                decoded_data = cast(AnyStr, decoder.decode(data))
             except UnicodeDecodeError as unicode_exc:
                 raise ProtocolError(str(unicode_exc)) from None
         else:
